@@ -317,6 +317,7 @@ def run(tier, pid):
             ("rt_exp_details.cfg", ("ext", "tt"), {}),
             ("rt_exp_nested.cfg", ("ext",), {}),
             ("rt_exp_patch.cfg", ("ext",), {}),
+            ("rt_exp_handlers.cfg", ("ext", "py27"), {}),
             ("rt_exp_triples.cfg", ("ext", "py27", "stream"), {}),
             ("rt_sim.cfg", ALL, dict(workers=4, simulate=dict(num=100, depth=80), seed=rep.seed + 1)),
         ]
@@ -332,6 +333,7 @@ def run(tier, pid):
             ("rt_exp_details2.cfg", ("ext",), {}),
             ("rt_exp_nested.cfg", ("ext",), {}),
             ("rt_exp_patch.cfg", ("ext",), {}),
+            ("rt_exp_handlers.cfg", ("ext", "py27"), {}),
             ("rt_exp_triples.cfg", ("ext", "py27", "stream"), {}),
             ("rt_sim.cfg", ALL, dict(workers=8, simulate=dict(num=2500, depth=80), seed=rep.seed + 1)),
         ]
